@@ -10,13 +10,14 @@ Variables lower upper : str -> str.
 Variable parse_tree : mapper -> tz -> res (option T * mapper * tz).
 Variable set_label : T -> option str -> T.
 Variable add_comments : T -> list str -> T.
+Variable vl : bool.
 Variable c : nscfg.
 Variable tlf : tl_factory.
 
 Notation RTL := (r_tree_loop T upper parse_tree set_label add_comments).
 Notation YTL := (y_tree_loop T upper parse_tree set_label add_comments).
-Notation RTS := (r_trees_loop T lower upper parse_tree set_label add_comments c tlf).
-Notation YTS := (y_trees_loop T lower upper parse_tree set_label add_comments c).
+Notation RTS := (r_trees_loop T lower upper parse_tree set_label add_comments vl c tlf).
+Notation YTS := (y_trees_loop T lower upper parse_tree set_label add_comments vl c).
 Notation PTS := (parse_tree_stmt T parse_tree set_label add_comments).
 Notation appends i := (fold_left (fun l t => tl_append T l i t)).
 
@@ -73,7 +74,7 @@ Proof.
   destruct (zstep k (next_token_ucase upper)) as [k1|e|]; cbn [bind]; try (simpl; reflexivity).
   destruct (otok_is (z_cur (k_z k1)) K_LINK).
   { rewrite ybind_ylift.
-    destruct (parse_link upper (S f) (k_z k1)) as [[lt z2]|e|]; cbn [bind]; try (simpl; reflexivity).
+    destruct (parse_link upper vl (S f) (k_z k1)) as [[lt z2]|e|]; cbn [bind]; try (simpl; reflexivity).
     apply IH; assumption. }
   destruct (otok_is (z_cur (k_z k1)) K_TITLE).
   { rewrite ybind_ylift.
